@@ -62,7 +62,7 @@ theorem nodup_not_mem_take {l : List String} {j : Nat} {a : String} (hnd : l.Nod
   rw [h1] at h2; cases h2; omega
 
 /-- every call that is a plain scalar call on every builder -/
-theorem scalar_bl {ext : Ext} [ExtPlain ext] {x : SVal} {b : B} {path : String} {dt n md} (hg : Good b dt n md)
+theorem scalar_bl {ext : Ext} [ExtPlain ext] {x : SVal} {b : B} {path : String} {dt n md} (hg : GoodH b dt n md)
     (ha : At path dt n md b) (hraw : noRaw x = true) (hcap : vsize ext x ≤ room b)
     (hS : blameDT ext path dt n md x = if (interpDT ext dt n md x).isOk then [] else [path])
     (hp : push ext b x = ctx b.ann (pushScalar ext b x)) : Bl (blameDT ext path dt n md x) (push ext b x) := by
@@ -85,7 +85,7 @@ variable (ext : Ext) [ExtPlain ext]
 
 mutual
 theorem push_bl : ∀ (x : SVal), noRaw x = true → ∀ (b : B) (path : String) (dt : DataType) (n : Bool)
-    (md : Metadata), Good b dt n md → At path dt n md b → vsize ext x ≤ room b →
+    (md : Metadata), GoodH b dt n md → At path dt n md b → vsize ext x ≤ room b →
     Bl (blameDT ext path dt n md x) (push ext b x)
   | .some v, hraw => by
     intro b path dt n md hg ha hcap
